@@ -23,12 +23,15 @@ RULE = ("Seeded plans: critic family (DQN, Nature-DQN, DDQN, PER-DDQN, DDPG, TD3
         "y = r + (1-terminated)*gamma*bootstrap (max / double-Q selection / clipped double-Q minimum / TD7 value clipping with the reported range / "
         "MR.Q n-step return with residual discount and reward scaling / SAC entropy term with the action the routine drew, read from a probe on the target critic, and alpha as it was at that instant) evaluated with float64 forward passes through the clones; tolerance "
         "2e-5*(1+|x|) + 16*|float32 reference - float64 reference| + float32 rounding of the forward-pass magnitude. "
+        "TD7 value plans additionally replay every SALE update: a clone of the real optimiser makes one step from the pre-update clone of the embedding along the "
+        "gradient of mse(zsa(o,a), stop_gradient(zs(o'))) and the result must equal the embedding as it was at the next sample (entries with |g| > 1e-4, 3 % of the step) - "
+        "the representation loss is differentiated against a gradient-stopped target (C03.grad). "
         "Distinct = distinct (routine, configuration, fault kind, fired?).")
 REAL = ["train_* routines", "all critic losses (dqn, nature_dqn, ddqn, ddqn_per, ddpg, td3, td3_lap, sac, td7_update_critic, mrq_loss, SALE loss)", "replay buffers (dynamic subclass adds the fault / records samples)",
         "networks (clones of the live modules give the reference its forward passes)"]
 STUB = ["environment (SimEnv)"]
 ASSUMPTIONS = ["value equality is decided on the states simulated histories reach (batches the seeded sampler returns, networks after earlier updates and target synchronisations), not for all inputs; "
-               "the MR.Q encoder loss value, gradients w.r.t. online parameters and batch size 1 are NOT decided",
+               "the MR.Q encoder loss value, gradients of the critic losses w.r.t. online parameters (only the SALE update is replayed) and batch size 1 are NOT decided",
                "replacement successors are finite stored observations, so 0*x stays 0",
                "TD7 and MR.Q representation losses legitimately read the successor and are excluded from the corrupt_terminated fault",
                "smoothed target actions (TD3 family with noise_clip > 0) are read from a probe on the supplied target critic; an update whose target action cannot be attributed is counted unchecked",
@@ -37,7 +40,7 @@ TIERS = {"quick": {"runs": 108}, "thorough": {"runs": 2400}}
 REQUIRED = ["terminated_successor_irrelevant", "corrupted_rows_sampled", "control_fault_changes_trace", "batch_order_irrelevant",
             "update_matches_reference:q_loss", "update_matches_reference:q_mean", "td_errors_match_reference", "update_on_mixed_terminated_batch",
             "update_with_active_value_clipping", "update_with_reward_scale_not_one", "update_matches_reference:embedding_loss", "update_matches_reference:weighted_loss",
-            "double_q_selection_differs_from_target_argmax"]
+            "double_q_selection_differs_from_target_argmax", "sale_update_follows_reference_gradient"]
 REQUIRED_QUICK = ["terminated_successor_irrelevant", "corrupted_rows_sampled", "control_fault_changes_trace", "batch_order_irrelevant",
                   "update_matches_reference:q_loss", "update_matches_reference:q_mean", "td_errors_match_reference", "update_on_mixed_terminated_batch"]
 CHUNK = 24  # TrainSim plans per fresh worker process
